@@ -146,7 +146,7 @@ def _validate_shard(args):
             shutil.rmtree(wd, ignore_errors=True)
 
 
-def validate_traces(module, cfg_text, traces, shards=None, timeout=3600, keep=False, nd=1):
+def validate_traces(module, cfg_text, traces, shards=None, timeout=1800, keep=False, nd=1):
     """Validate a list of trace records with spec/<module>.tla.  Returns, in input order, one
     list per trace with `nd` (verdict, matched_prefix_len) pairs (one per configuration the
     trace specification tries), and stats."""
